@@ -26,6 +26,7 @@ package consensus
 //@   allocbound 1048576 + 24
 //@   atcall Unmarshal requires [crcCheckedBeforeUse] crc32.crcOf(content(buf)) == crc && len(buf) == length && length <= maxMsgSizeBytes
 //@   ensures [messageOrError] err == nil ==> msg != nil
+//@   atcall Errorf requires [lengthRejectedOnlyAboveLimit] format == "length %d exceeded maximum possible value of %d bytes" ==> length > maxMsgSizeBytes
 
 // Searching for a height's end marker: a clean "not found" is returned only after every file was
 // scanned, or after a file whose last end marker is older than the height searched for.
